@@ -371,7 +371,10 @@ def _local(mon, hi, lo, sg, Wp, Ws, intf, info, slack=0.0):
 
 
 def check(case, mon):
-    recipe = case["recipe"]
+    recipe = gm.apply_scale(case["recipe"])
+    if case["recipe"].get("scale"):
+        mon.klass("scaled-domain")
+        mon.count("scaled_domains")
     mdg = gm.build(recipe)
     net = Network(recipe)
     tol_on = TOL_ON * max(net.L)
@@ -498,6 +501,14 @@ def floor(tier):
         {"recipe": F3[3], "seed": 110, "updates": [
             U("mortar", 0, 2, "other"), U("secondary", 0, 3, "other")]},
         {"recipe": F3[2], "seed": 111, "updates": []},
+        # micrometre / kilometre domains: overlaps are far below / above any absolute
+        # tolerance; conservation and constant preservation are scale invariant
+        {"recipe": dict(F2[1], scale=1e-5), "seed": 112, "updates": [
+            U("mortar", 0, 2), U("secondary", 0, 3)]},
+        {"recipe": dict(F2[1], scale=1e-5), "seed": 113, "updates": [
+            U("secondary", 0, 2), U("mortar", 0, 3)]},
+        {"recipe": dict(F2[2], scale=1e3), "seed": 114, "updates": [
+            U("mortar", 0, 2), U("secondary", 1, 2)]},
     ]
     return out
 
